@@ -53,8 +53,13 @@ def install(eng):
     try:
         import numpy as np
         B[np.isnan] = b_np_isnan
+        B[np.clip] = b_np_clip
+        B[np.round] = b_np_round
+        B[np.nextafter] = b_np_nextafter
     except Exception:
         pass
+    B[_math.exp] = b_math_exp
+    B[_math.log] = b_math_log
     import datetime as _dt
     B[_dt.datetime.now] = b_now
     import uuid
@@ -840,3 +845,59 @@ def comprehension(eng, st, node, what, frame=None):
         st.heap[sz] = z3.Store(eng.harr(st, sz), out.term, cnt)
         return out
     raise Unsupported("%s comprehension" % what)
+
+
+# --------------------------------------------------------------------------------------------------
+# numpy-lite / math (scalar)
+def b_np_clip(eng, st, args, kwargs, node):
+    """np.clip(x, lo, hi) on scalars: order facts only (valid for IEEE doubles): NaN passes through."""
+    _use("np.clip")
+    x, lo, hi = [eng.coerce(st, a, KFloat, node).term for a in args[:3]]
+    r = z3.If(f_is_nan(x), x, z3.If(f_lt(x, lo), lo, z3.If(f_lt(hi, x), hi, x)))
+    return SV(KFloat, r)
+
+
+def b_np_round(eng, st, args, kwargs, node):
+    """np.round(x): round-half-even to an integral float."""
+    _use("np.round")
+    x = eng.coerce(st, args[0], KFloat, node).term
+    r = f_r(x)
+    fl = z3.ToInt(r)
+    frac = r - z3.ToReal(fl)
+    res = z3.If(frac < 0.5, fl, z3.If(frac > 0.5, fl + 1, z3.If(fl % 2 == 0, fl, fl + 1)))
+    return SV(KFloat, z3.If(f_is_fin(x), f_fin(z3.ToReal(res)), x))
+
+
+def nextafter_down(x):
+    return uf("nextafter_down", F(), F())(x)
+
+
+def b_np_nextafter(eng, st, args, kwargs, node):
+    """np.nextafter(x, y) with y < x: the largest double below x -- uninterpreted, with the order
+    fact nextafter_down(x) < x (granularity facts are stated as assumptions where needed)."""
+    _use("np.nextafter")
+    x = eng.coerce(st, args[0], KFloat, node).term
+    y = eng.coerce(st, args[1], KFloat, node).term
+    if not eng.spec_mode and not st.branch(f_lt(y, x), "nextafter-direction"):
+        raise Unsupported("np.nextafter upwards")
+    r = nextafter_down(x)
+    eng.assume(st, z3.Implies(f_is_fin(x), z3.And(f_is_fin(r), f_lt(r, x))))
+    return SV(KFloat, r)
+
+
+def b_math_exp(eng, st, args, kwargs, node):
+    _use("math.exp")
+    x = eng.coerce(st, args[0], KFloat, node).term
+    r = uf("math_exp", F(), F())(x)
+    eng.assume(st, z3.Implies(f_is_fin(x), z3.And(f_is_fin(r), f_r(r) > 0)))
+    return SV(KFloat, r)
+
+
+def b_math_log(eng, st, args, kwargs, node):
+    _use("math.log")
+    x = eng.coerce(st, args[0], KFloat, node).term
+    if not eng.spec_mode and not st.branch(z3.And(f_is_fin(x), f_r(x) > 0), "log-domain"):
+        eng.raise_(ValueError, node)
+    r = uf("math_log", F(), F())(x)
+    eng.assume(st, f_is_fin(r))
+    return SV(KFloat, r)
